@@ -8,6 +8,8 @@ import (
 	"github.com/aptpod/iscp-go/internal/vf"
 )
 
+var errAlreadyReconnecting = errors.Errorf("transport lost: %w", errors.ErrConnectionClosed)
+
 var errClosedByUser = errors.Errorf("closed by the application: %w", errors.ErrConnectionClosed)
 
 func zzStatus(label string) connStatusValue {
@@ -81,7 +83,7 @@ func zzC05bSend() {
 	other := stderrors.New("other failure")
 	var script []error
 	for i := 0; i < n; i++ {
-		switch vf.Choose("f"+string(rune('0'+i)), 4) {
+		switch vf.Choose("f"+string(rune('0'+i)), 5) {
 		case 0:
 			script = append(script, nil)
 		case 1:
@@ -92,6 +94,10 @@ func zzC05bSend() {
 			// the application closes the connection while the call is in flight: the call then
 			// fails with a connection-closed error and the status is already Closed
 			script = append(script, errClosedByUser)
+		case 4:
+			// the transport died and somebody else (another request, the run loop) has already
+			// moved the connection to Reconnecting when this call fails
+			script = append(script, errAlreadyReconnecting)
 		}
 	}
 	// the last scripted attempt never asks for another retry
@@ -110,6 +116,9 @@ func zzC05bSend() {
 		if err == errClosedByUser {
 			c.state.Swap(connStatusClosed)
 			closedByUser = true
+		}
+		if err == errAlreadyReconnecting {
+			c.state.CompareAndSwap(connStatusConnected, connStatusReconnecting)
 		}
 		return err
 	}
